@@ -6,7 +6,12 @@ REAL_EQL = ["real: krrood EQL engine (symbolic.py, hashed_data.py, conclusion_se
 PROPERTIES = {
     "C03": {
         "machine": "eval_sim",
+        "engine": "Sim-E",
         "level": "exploration",
+        "level_text": "Seeded search over histories of evaluate() calls and interleavings of next()/close()/drop/gc steps on 1-3 query objects that share variables, condition nodes or the query object itself, including rule queries; every task is compared, step by step, with the real engine evaluating the same query alone on a freshly built copy of the scenario. Exploration is the right level because the state that can interfere lives on shared expression nodes and domain caches and only a schedule exposes it; the space of schedules is unbounded, so it is sampled (many short diverse runs), not enumerated.",
+        "design_ref": "DESIGN.md section 5, C03",
+        "level_note": "Trusted: the harness world (sim/worlds/eworld.py), the normalisation of results to serial numbers, and the engine's behaviour in isolation as reference. Assumed: per-run bounds (<=3 queries, <=6 tasks, <=70 ops, <=5 items per domain). One open finding (known_findings.json F-C03-3) is suppressed only when its neutraliser makes the verdict disappear.",
+        "technique": "deterministic simulation: seeded cooperative scheduling of evaluation generators with abandonment/gc faults, differential oracle against isolated evaluation, ddmin-minimised replay files",
         "tiers": {
             "quick": {"runs": 12000, "wall_s": 150, "triage_s": 60},
             "thorough": {"runs": 600000, "wall_s": 3000, "triage_s": 300},
@@ -20,4 +25,34 @@ PROPERTIES = {
             "bounds per run: <=3 queries, <=3 variables, <=5 items per domain, <=6 tasks, <=70 ops",
         ],
     },
+}
+
+
+ENGINES = {
+    "Sim-E": "evaluation simulator: the generators returned by evaluate() are the tasks; a seeded op list decides every next(), close(), reference drop and gc; fork-per-run from a pristine template process",
+}
+
+NOTES = (
+    "All checks are run by sim/check.py (custom seeded simulator, one forked child per run, explicit op lists as replay files, "
+    "ddmin minimisation, known findings in known_findings.json with witnesses under findings/). Exit 0 = held on everything explored, "
+    "1 = VIOLATION line with a replay file under replays/, 3 = harness anomaly. Environment knobs: VERIF_SEED, VERIF_RUNS, VERIF_WALL, "
+    "VERIF_WORKERS, KRROOD_SRC (source tree under test, default /repo/src). DESIGN.md explains per property what is simulated."
+)
+
+_PURE = "pure function of (program, data): no interleaving, event order, lifetime, stream or fault whose choice could change the answer, so a seeded scheduler has nothing to schedule and a fault injector nothing to inject (DESIGN.md section 6)"
+_WIP = "claimed in DESIGN.md but its check is not built at this commit - listed here so that nothing is claimed without a working check"
+
+NOT_APPLICABLE = {
+    "C01": "EQL soundness/completeness: " + _PURE,
+    "C02": "multiplicities in the conjunctive/else-if fragment: " + _PURE,
+    "C04": "object -> DAO -> object round trip: two recursive pure conversions with per-call memo tables; " + _PURE,
+    "C05": "persist/reload: a fixed two-step protocol on a fresh database; commit atomicity and crash recovery belong to SQLAlchemy/SQLite, the failures the property is about depend on graph shape and generated mapper arguments only; " + _PURE,
+    "C06": "ORMatic code generation: text as a function of a class set; the realistic breakages are input-shaped; " + _PURE,
+    "C07": "EQL-to-SQL equivalence: pure in (query, rows); " + _PURE,
+    "C08": "rule-tree semantics: which branch fires is a function of (tree, data); re-evaluation and interleaving of rule queries is covered under C03; " + _PURE,
+    "C09": "result quantifiers: exception or value as a function of (constraint, number of solutions); " + _PURE,
+    "C11": "pattern matching vs explicit query: pure in (pattern, data); " + _PURE,
+    "C12": "predicates/symbolic functions, concrete vs symbolic call: pure in (signature, call shape, binding); " + _PURE,
+    "C18": "JSON round trip: pure in the value; " + _PURE,
+    "C10": _WIP, "C13": _WIP, "C14": _WIP, "C15": _WIP, "C16": _WIP, "C17": _WIP, "C19": _WIP, "C20": _WIP,
 }
